@@ -5,7 +5,7 @@ Proof: lean/GHEVerif/Props/C13.lean over the state machine lean/GHEVerif/Model/A
 for every history of API calls the outcome of set_design; find_design equals `design cfg`, a function
 of the last setter values only, nominal height forgotten; simulate_pure: every call on one GHE equals
 the call on the object as new, for every sequence of simulate/size/compute_g_functions/height writes
-inside the stored heights; mutable_defaults_untouched; source_shape_*: facts regenerated from the sources).
+(no condition on the heights since fix 5ab5ff6); mutable_defaults_untouched; source_shape_*: facts regenerated from the sources).
 
 Tie to the code (this file):
  * correspondence, GHE level: random call sequences on real GHE objects, every GHE.simulate
@@ -388,7 +388,8 @@ def gen_ghe_specs(rng, n, tier):
         while len(ops) < k:
             r = rng.random()
             if r < 0.35:
-                hh = rng.choice([lo, hi, mid, round(rng.uniform(lo, hi), 3), round(rng.uniform(lo, hi), 1), math.nextafter(hi, 0), lo + 5e-7, hi - 5e-7])
+                hh = rng.choice([lo, hi, mid, round(rng.uniform(lo, hi), 3), round(rng.uniform(lo, hi), 1), math.nextafter(hi, 0), lo + 5e-7, hi - 5e-7,
+                                 round(rng.uniform(hi, hi + 30), 1), round(rng.uniform(lo - 15, lo), 1)])   # also outside the stored heights
                 if not three:
                     hh = rng.choice([hh, hload, round(rng.uniform(lo, hi), 2)])
                 ops.append("H:" + core.rs(hh))
@@ -479,16 +480,14 @@ def check_ghe(ctx, spec, res, model_out, spec_out):
         inside = (spec["min_h"] <= f["h"] <= spec["max_h"]) if st["cgf_done"] else in_window(spec, f["h"])
         same = st["kind"] == f["kind"] and st["val"] == f["val"]
         ctx.count("ghe_calls_vs_fresh")
+        ctx.count("ghe_calls_vs_fresh:" + ("inside" if inside else "outside") + "-stored-heights")
         if same:
             continue
         replay = {"spec": spec, "call_index": f["i"], "op": f["op"], "height": f["h"], "on_used_object": [st["kind"], (st["val"] or [None])[:2]],
-                  "on_new_object": [f["kind"], (f["val"] or [None])[:2]]}
-        if not inside:
-            ctx.finding("ghe-fill-mode-out-of-window",
-                        f"{name}: {f['op']} at H={f['h']} outside the stored heights {spec['heights']}: {st['kind']} after earlier calls, {f['kind']} on a new object", replay)
-        else:
-            ctx.finding(f"ghe-history-dependent:{f['op']}", f"{name}: call {f['i']} ({f['op']} at H={f['h']}) differs from the same call on a new object: "
-                        f"{st['kind']} {(st['val'] or [None])[:2]} vs {f['kind']} {(f['val'] or [None])[:2]}", replay)
+                  "on_new_object": [f["kind"], (f["val"] or [None])[:2]], "inside_stored_heights": inside}
+        ctx.finding(f"ghe-history-dependent:{f['op']}" + ("" if inside else ":outside-stored-heights"),
+                    f"{name}: call {f['i']} ({f['op']} at H={f['h']}) differs from the same call on a new object: "
+                    f"{st['kind']} {(st['val'] or [None])[:2]} vs {f['kind']} {(f['val'] or [None])[:2]}", replay)
 
 
 # ============================================================================ manager level
@@ -845,7 +844,7 @@ def run(ctx: core.Ctx):
     ctx.assumptions += [
         "numerical kernels (everything below GHE.simulate, pygfunction, brentq) are pure functions of the arguments the model passes them; measured: no (configuration, field, heights, height, method) key simulated to two different temperature pairs",
         "Safe: a search routine builds objects at the borehole's current height only in its constructor, which must not raise there (nominal height 0 raises ZeroDivisionError: corpus case), and never returns or sizes that object; checked on every recorded search path",
-        "Covering: simulate_pure is stated for heights covered by the stored g-function heights; outside, the first call fixes the table's extrapolation mode (known finding ghe-fill-mode-out-of-window)",
+        "simulate_pure needs no hypothesis on the heights since fix 5ab5ff6 (table rebuilt when built for another kind/fill mode; pinned by source_shape_gfunction); heights outside the stored ones are generated and compared with new objects",
         "a ValueError raised by a numerical kernel inside BisectionZD.search_successive would be swallowed by its `except ValueError`; the model lets kernel errors propagate",
         "component setters after set_design are outside the documented call order (the design keeps the captured objects; Lean example)",
     ]
